@@ -25,6 +25,14 @@ CHECKS = {
    technique="TLA+ abstract machine + TLC exhaustive MC; spec->code behaviour replay; code->spec trace validation (dyadic arithmetic)",
    ref="6 (C01)"),
 }
+CHECKS["C16"] = dict(
+   text="Every (ray, surface) event of real traces through random lenses with radial apertures (with/without obscuration), absorbing media, "
+        "simple coatings and mirrors - through both Optic.trace and Optic.trace_generic, with and without a polarization state - is judged by "
+        "TLC evaluating the intensity machine of spec/RayStep.tla (JudgeIntensity): range [0,1], never increases, dark stays dark, outside the "
+        "aperture => 0, absorption certificate in (0,1] and = 1 iff k = 0, exact factor i = i0*a*tau inside the aperture, intensity returned by "
+        "the call = image-surface record. Per-run calibration with corrupted events.",
+   technique="TLA+ per-ray intensity machine evaluated by TLC on recorded traces (trace validation, exact dyadic arithmetic) + calibration",
+   ref="6 (C16)")
 NOT_YET = "check not built yet in this session (see DESIGN.md section 6 for the plan)"
 def main():
     props = [json.loads(l)["id"] for l in open(os.path.join(HERE, "properties.jsonl"))]
